@@ -23,6 +23,10 @@ type authScriptC struct {
 	Mode    string                `json:"mode"`
 	Source  string                `json:"source"`
 	Answers map[string][][]string `json:"answers"`
+	// predictions of the implementation model (drift layer only)
+	Reqs   [][]string `json:"reqs,omitempty"`
+	Helper [][]string `json:"helper,omitempty"`
+	Result string     `json:"result,omitempty"`
 }
 
 func init() {
@@ -118,7 +122,9 @@ func init() {
 			var ev map[string]interface{}
 			json.Unmarshal([]byte(line), &ev)
 			assertion := "chain-bounded"
-			if a, _ := ev["auth"].(string); a != "none" && a != ev["host"] {
+			if k, _ := ev["ev"].(string); k != "req" {
+				assertion = "helper-approve-reject-only-for-filled-identity"
+			} else if a, _ := ev["auth"].(string); a != "none" && a != ev["host"] {
 				assertion = "credentials-confined-to-their-host"
 			} else if ev["scheme"] == "http" {
 				assertion = "no-https-to-http-downgrade"
@@ -134,6 +140,15 @@ func init() {
 			c.Report(core.Violation{Assertion: assertion, Fields: map[string]string{"mode": byID[rid].Mode, "source": byID[rid].Source},
 				Detail: map[string]interface{}{"script": byID[rid], "rejected_request": ev, "trace_line": vr.Depth, "redirect_answers_in_script": redirects,
 					"note": "the acceptor HttpAuthTrace has no action matching this request in the state reached by the run's earlier requests"}})
+		}
+		// drift layer (never a verdict): does the code send exactly the requests, and make exactly the
+		// helper calls, that the implementation model spec/HttpAuth.tla predicts for this script?
+		drift := authDrift(merged, byID)
+		c.Set("drift_differs_from_implementation_model", len(drift))
+		for i, d := range drift {
+			if i < 3 {
+				c.Sample(d)
+			}
 		}
 		c.Set("traces_validated_against_impl", validated)
 		c.Set("trace_events", events)
@@ -201,4 +216,51 @@ func authLineInfo(file string, line int) (int, string) {
 		}
 	}
 	return cur, ""
+}
+
+// authDrift compares each run's observed requests / helper calls / outcome with the model's prediction.
+func authDrift(trace string, byID map[int]*authScriptC) []map[string]interface{} {
+	f, err := os.Open(trace)
+	if err != nil {
+		return nil
+	}
+	defer f.Close()
+	var out []map[string]interface{}
+	var reqs, helper [][]string
+	sc := bufio.NewScanner(f)
+	for sc.Scan() {
+		var e struct {
+			Ev, Host, Auth, Result string
+			ID                     int
+		}
+		json.Unmarshal(sc.Bytes(), &e)
+		switch e.Ev {
+		case "reset":
+			reqs, helper = nil, nil
+		case "req":
+			reqs = append(reqs, []string{e.Host, e.Auth})
+		case "fill", "approve", "reject":
+			helper = append(helper, []string{e.Ev, e.Host})
+		case "done":
+			s := byID[e.ID]
+			if s == nil {
+				continue
+			}
+			okReal := len(e.Result) > 8 && e.Result[:8] == "status 2"
+			a, _ := json.Marshal(reqs)
+			b, _ := json.Marshal(s.Reqs)
+			h1, _ := json.Marshal(helper)
+			h2, _ := json.Marshal(s.Helper)
+			if len(s.Reqs) == 0 {
+				b = []byte("null")
+			}
+			if len(s.Helper) == 0 {
+				h2 = []byte("null")
+			}
+			if string(a) != string(b) || string(h1) != string(h2) || okReal != (s.Result == "ok") {
+				out = append(out, map[string]interface{}{"script": s, "observed_requests": reqs, "observed_helper_calls": helper, "observed_result": e.Result})
+			}
+		}
+	}
+	return out
 }
